@@ -1,9 +1,14 @@
 """C19 — $ENV{NAME} expansion in appender / roller paths.
-case: ( site path env pattern )   site 0 FileAppender, 1 RollingFileAppender, 2 FixedWindowRoller
+case: ( site path env pattern more rolls )   site 0 FileAppender, 1 RollingFileAppender, 2 FixedWindowRoller;
+  site + 10: same call site, path handed over relative to the temp root as working directory (only when neither
+  the path nor any value contains '/'), so that the text reaching expand_env_vars begins with the generated path
   path / pattern: code points; env: ((name value) ...) the variables that are set.
-  For site 2 `pattern` contains "{}" and `path` = pattern with "{}" -> "0" (what reaches expand_env_vars).
-impl:  ( alnum obs )            obs = (1 relpath) | (0 n) | (2)
-model: ( model spec ) model = (1 cps) | "panic", spec = cps (one-pass expansion; model = spec is a theorem)"""
+  For site 2 `pattern` contains "{}", the roller is built with count = 1 + len(more) and rolled `rolls` times
+  (the j-th rolled file contains the number j); `path` = pattern with "{}" -> "0" and more[i-1] = pattern with
+  "{}" -> i: the texts that reach expand_env_vars for the archive indices.
+impl:  ( alnum obs )            obs = (1 relpath) | (0 n) | (2) | site 2: (3 ((relpath j) ...))
+model: ( model spec ((model spec) ...) ) model = (1 cps) | "panic", spec = cps (one-pass expansion; model = spec
+       is a theorem); the list is for `more`"""
 import vcommon as vc
 
 RULE = ("paths are concatenations of 1-8 pieces drawn from: literal text (ASCII, non-ASCII incl. 4-byte, stray '$' '{' '}', "
@@ -15,10 +20,16 @@ RULE = ("paths are concatenations of 1-8 pieces drawn from: literal text (ASCII,
         "'{}' '/', non-ASCII, '$', '$ENV{', whole references to set/unset variables); variables with illegal names "
         "are sometimes set too. A template stream builds forged references on purpose (a value and its neighbouring "
         "literals spell another reference: the class of the fixed finding F-C19-forged-ref). Every path is run through the "
-        "three call sites (the roller with '{}' inserted at a random place). corpus: the DESIGN witness and hand-made "
+        "three call sites (the roller with '{}' inserted at a random place, window count 1-3, 1-3 successive rolls; ALL "
+        "archive locations and which rolled file each holds are observed). Two further streams: references to set but "
+        "EMPTY variables at offset 0 / in the middle / at the end, alone and next to other references (expansions that "
+        "differ from the input only by deletions); roller patterns whose '{}' shares a path component with a reference "
+        "whose value contains '/' (the expanded location has more directory levels than the pattern). corpus: the DESIGN witness and hand-made "
         "edge cases. non-trivial = the path contains '$ENV{' ; distinct = distinct case line")
 ASSUMPTIONS = ["variable values are valid UTF-8 (they may contain '$' and references: wider than the property's quantifier)",
-               "the temp-root prefix put before the path contains no '$', so it takes no part in the expansion (theorem C19_prefix)",
+               "absolute hand-over: the temp-root prefix contains no '$', so it takes no part in the expansion (theorem "
+               "C19_prefix); relative hand-over (cases without '/'): no prefix at all, the process's working directory is "
+               "the temp root during the call",
                "paths are valid UTF-8 without NUL; no generated component is '.', '..' or longer than 255 bytes",
                "FixedWindowRoller substitutes '{}' before expanding (the substituted text is what the model receives)"]
 EXHAUSTIVE = {"quick": False, "thorough": False}
@@ -128,16 +139,33 @@ def usable(path):
     return len(path) > 0 and len(path.encode()) < 180 and "\0" not in path
 
 
-def with_sites(rng, path, env, sites=(0, 1, 2)):
+def _rel_ok(text, env_list):
+    """relative hand-over is used only when no '/' can occur in anything the call site may build"""
+    return "/" not in text and all(47 not in v for _, v in env_list)
+
+
+def roller_case(pattern, env_list, count, rolls):
+    subs = [pattern.replace("{}", str(i)) for i in range(count)]
+    site = 12 if _rel_ok(pattern, env_list) else 2
+    return [site, cps(subs[0]), env_list, cps(pattern), [cps(x) for x in subs[1:]], rolls]
+
+
+def with_sites(rng, path, env, sites=(0, 1, 2), boundaries=None):
     out = []
     e = [[cps(k), cps(v)] for k, v in env.items()]
     for s in sites:
         if s < 2:
-            out.append([s, cps(path), e, []])
+            out.append([s + 10 if _rel_ok(path, e) else s, cps(path), e, [], [], 0])
         else:
-            i = rng.below(len(path) + 1) if rng.chance(1, 2) else len(path)
+            count = rng.choice([1, 1, 2, 3])
+            rolls = 1 if count == 1 else rng.range(2, 3)
+            if count > 1 and boundaries:
+                # several archives: "{}" goes between pieces (never inside a reference's name)
+                i = rng.choice(boundaries)
+            else:
+                i = rng.below(len(path) + 1) if rng.chance(1, 2) else len(path)
             pattern = path[:i] + rng.choice(["{}", ".{}", "{}."]) + path[i:]
-            out.append([2, cps(pattern.replace("{}", "0")), e, cps(pattern)])
+            out.append(roller_case(pattern, e, count, rolls))
     return out
 
 
@@ -163,24 +191,109 @@ def corpus():
     ]
     for p, e in hand:
         out += with_sites(r, p, e)
+    # set but empty variables (seeded C19-5): the expansion only deletes text
+    for p, e in [("$ENV{PFX}app.log", {"PFX": ""}), ("$ENV{A}$ENV{B}x", {"A": "", "B": ""}), ("$ENV{A}x$ENV{B}", {"A": "", "B": "v"}),
+                 ("$ENV{A}$ENV{U}", {"A": ""}), ("a$ENV{A}b", {"A": ""}), ("ab$ENV{A}", {"A": ""}), ("$ENV{A}$ENV{A}q", {"A": ""})]:
+        out += with_sites(r, p, e)
+    # roller: the value adds directory levels next to "{}" (seeded C19-6)
+    for pat, e, cnt, rolls in [("arch/a{}$ENV{TAIL}", {"TAIL": "/app.log"}, 2, 2), ("arch/a{}$ENV{TAIL}", {"TAIL": "/app.log"}, 3, 3),
+                               ("a{}$ENV{T}", {"T": "/x/y.log"}, 2, 3), ("$ENV{D}{}/f", {"D": "p/q"}, 3, 3),
+                               ("d/{}$ENV{U}.log", {}, 2, 2), ("x.{}", {}, 3, 3), ("$ENV{D}/x.{}.log", {"D": "logs/app"}, 3, 2)]:
+        out.append(roller_case(pat, [[cps(k), cps(v)] for k, v in e.items()], cnt, rolls))
     return out
+
+
+def gen_empty(rng):
+    """references to set-but-empty variables at the start / middle / end, alone or with other pieces"""
+    lits = ["app", ".log", "x", "é", "d/f", "-", "$", "{", "}", "$ENV{", "日本"]
+    names = rng.shuffle(["A", "B", "PFX", "a.b", "_", "é"])
+    env = {names[0]: ""}
+    if rng.chance(1, 2):
+        env[names[1]] = ""
+    others = []
+    for _ in range(rng.below(3)):
+        k = rng.below(4)
+        if k == 0:
+            others.append(rng.choice(lits))
+        elif k == 1:
+            others.append(ref(names[2]))                # unset (or set below)
+        elif k == 2:
+            others.append(ref(rng.choice(BAD_NAMES)))
+        else:
+            others.append(ref(names[1]))
+    if rng.chance(1, 4):
+        env[names[2]] = rng.choice(["v", "", "a/b", "$ENV{A}"])
+    lit = rng.choice(lits[:6])
+    e = ref(names[0])
+    where = rng.below(4)
+    if where == 0:
+        pcs = [e] + others + [lit]
+    elif where == 1:
+        pcs = [lit] + others + [e]
+    elif where == 2:
+        pcs = [lit, e] + others + [rng.choice(lits[:6])]
+    else:
+        pcs = [e, e] + others + [lit, e]
+    return pcs, env
+
+
+def gen_roller(rng):
+    """'{}' in the same path component as references; values that add directory levels"""
+    vals = ["/app.log", "/x/y", "p/q", "a/b", "/e", "v", "", "x.y"]
+    names = rng.shuffle(["T", "D", "A", "a.b", "é"])
+    env = {}
+    pcs = []
+    for _ in range(rng.range(1, 3)):
+        k = rng.below(5)
+        if k < 3:
+            n = rng.choice(names[:3])
+            if rng.chance(4, 5):
+                env[n] = rng.choice(vals)
+            pcs.append(ref(n))
+        elif k == 3:
+            pcs.append(rng.choice(["arch/a", "d/", "x", ".log", "-", "logs/app."]))
+        else:
+            pcs.append(ref(rng.choice(BAD_NAMES)))
+    i = rng.below(len(pcs) + 1)
+    pcs.insert(i, rng.choice(["{}", "a{}", "{}.", "d/{}", "{}x"]))
+    if rng.chance(1, 2):
+        pcs.insert(0, rng.choice(["arch/", "r", "d/e/"]))
+    if rng.chance(1, 2):
+        pcs.append(rng.choice([".log", "z", "/f"]))
+    count = rng.range(2, 3)
+    rolls = rng.range(2, 3)
+    return "".join(pcs), env, count, rolls
 
 
 def cases(rng, tier):
     out = []
-    n = 1600 if tier == "quick" else 25000
+    quick = tier == "quick"
+    n = 1300 if quick else 25000
     made = 0
     while made < n:
+        boundaries, pcs = None, None
         if rng.chance(1, 6):
             path, env = gen_forged(rng)
+        elif rng.chance(1, 6):
+            pcs, env = gen_empty(rng)
+            path = "".join(pcs)
         else:
             pcs, used = gen_pieces(rng)
             path = "".join(pcs)
             env = gen_env(rng, used)
+        if pcs is not None:
+            boundaries, k = [0], 0
+            for pc in pcs:
+                k += len(pc)
+                boundaries.append(k)
         if not usable(path):
             continue
         made += 1
-        out += with_sites(rng, path, env)
+        out += with_sites(rng, path, env, boundaries=boundaries)
+    for _ in range(250 if quick else 5000):
+        pattern, env, count, rolls = gen_roller(rng)
+        if usable(pattern):
+            out.append(roller_case(pattern, [[cps(k), cps(v)] for k, v in env.items()], count, rolls))
     return out
 
 
@@ -215,15 +328,47 @@ def _matches(cpl, obs):
     return obs == [1, cps(s)]
 
 
+def _roller_expect(c, specs):
+    """expected {relpath: j} after the rolls, or None when the archive locations cannot be told apart /
+    observed through the file system"""
+    count, rolls = 1 + len(c[4]), c[5]
+    locs = []
+    for sp in specs[:min(count, rolls)]:
+        t = _text(sp)
+        s = _norm(t)
+        if s == "" or t.endswith("/") or any(x in (".", "..") for x in s.split("/")):
+            return None
+        locs.append(s)
+    if len(set(locs)) != len(locs):
+        return None
+    for a in locs:
+        for b in locs:
+            if a != b and (b + "/").startswith(a + "/"):
+                return None          # one archive would have to be a directory of another
+    return {loc: rolls - i for i, loc in enumerate(locs)}
+
+
 def compare(c, iv, mv):
     if not isinstance(iv, list) or len(iv) != 2:
         return "the call site did not return normally: %r" % (iv,)
-    model, spec = mv
-    if not isinstance(model, list):
-        return "the model panics on this path (C19_expand_total says it cannot)"
-    if model[1] != spec:
-        return "model %r differs from the one-pass meaning %r (C19_expand_is_one_pass says it cannot)" % (
-            _text(model[1]), _text(spec))
+    model, spec, more = mv
+    pairs = [(model, spec)] + [(m, sp) for m, sp in more]
+    for m, sp in pairs:
+        if not isinstance(m, list):
+            return "the model panics on this path (C19_expand_total says it cannot)"
+        if m[1] != sp:
+            return "model %r differs from the one-pass meaning %r (C19_expand_is_one_pass says it cannot)" % (
+                _text(m[1]), _text(sp))
+    if c[0] % 10 == 2:
+        exp = _roller_expect(c, [sp for _, sp in pairs])
+        if exp is None:
+            return None
+        if iv[1][:1] != [3]:
+            return "roller: observation %r, expected archives %r" % (iv[1], exp)
+        got = {_text(p): j for p, j in iv[1][1]}
+        if got != exp:
+            return "roller: archives found %r, expected at the expanded locations %r" % (got, exp)
+        return None
     if _matches(spec, iv[1]) in (True, None):
         return None
     if iv[1][:1] == [1]:
@@ -238,10 +383,14 @@ def nontrivial(c):
 def classify(c):
     t = _text(c[1])
     k = t.count("$ENV{")
-    return "site=%d prefixes=%s%s" % (c[0], k if k < 3 else "3+", " non-ascii" if any(x > 127 for x in c[1]) else "")
+    return "site=%d%s%s prefixes=%s%s" % (c[0] % 10, " relative" if c[0] >= 10 else "",
+                                       " count=%d rolls=%d" % (1 + len(c[4]), c[5]) if c[0] % 10 == 2 else "",
+                                       k if k < 3 else "3+", " non-ascii" if any(x > 127 for x in c[1]) else "")
 
 
 def describe(c):
-    return {"call_site": ("FileAppender", "RollingFileAppender", "FixedWindowRoller")[c[0]],
+    return {"call_site": ("FileAppender", "RollingFileAppender", "FixedWindowRoller")[c[0] % 10],
+            "handed_over": "relative to the temp root (cwd)" if c[0] >= 10 else "temp root + '/' + path",
             "path": _text(c[1]), "env": {_text(k): _text(v) for k, v in c[2]},
-            "roller_pattern": _text(c[3]) if c[0] == 2 else None}
+            "roller_pattern": _text(c[3]) if c[0] % 10 == 2 else None,
+            "roller_count": 1 + len(c[4]) if c[0] % 10 == 2 else None, "rolls": c[5] if c[0] % 10 == 2 else None}
